@@ -503,8 +503,12 @@ func runWallet(r *evid.Run, dir string, idx int, cs int64) {
 			// half of the time a block arrives right behind the resynchronisation (the
 			// backend is one block ahead of where the rescan finished when the wallet
 			// gets to handle its end): the re-offer is still due
+			var blockDelivered chan struct{}
 			if rg.Intn(2) == 0 {
+				done := make(chan struct{})
+				blockDelivered = done
 				ch.AfterRescan = func() {
+					defer close(done)
 					ch.AfterRescan = nil
 					ch.Extend()
 					ch.NotifyConnect(int(ch.Height()))
@@ -518,6 +522,17 @@ func runWallet(r *evid.Run, dir string, idx int, cs int64) {
 				}
 				fail("c20:reopen", err.Error())
 				return
+			}
+			// the block behind the resync has been delivered and taken in by the wallet
+			// before anything else is judged (it may mature a coinbase)
+			if blockDelivered != nil {
+				select {
+				case <-blockDelivered:
+				case <-time.After(60 * time.Second):
+					r.Inconclusive("the block behind the resynchronisation was not delivered within 60 s")
+					return
+				}
+				ch.Barrier()
 			}
 			// The production trigger runs in a detached goroutine some time after
 			// RescanFinished. Poll until every wanted transaction has been offered;
